@@ -23,7 +23,10 @@ func Run(c *core.Ctx) {
 		"Http1Conn.tla invariants ModsOnce, ReqModBeforeUpstream, SkipMeansNoContact, WarnSurfaces, NoCtxAtRest, NoTouchAfterHijack (+ C01/C03 invariants) checked by TLC in all modes; binding: simulated behaviours -> live proxies with harness modifiers -> traces validated by TLC.",
 		false,
 		"a skip request on a CONNECT is not generated (the property speaks of round trips)",
+		"modifier groups (priority.Group, fifo.Group with and without error aggregation) are replayed separately against ModGroups.tla: every transition and every behaviour up to depth 4/5 of its state graph, request and response side",
 		"after a hijack the harness hijacker writes a 299 response, drains the connection for 80 ms and returns")
+	// the containers the modifiers sit in: priority and FIFO groups against ModGroups.tla
+	groups(c)
 	if !h1.ModelCheck(c, "h1_c02_plain", 2, true, true, false) ||
 		!h1.ModelCheck(c, "h1_c02_blind", 2, true, true, false, "blind") ||
 		!h1.ModelCheck(c, "h1_c02_mitm", c.Pick(2, 3), false, true, false, "mitm") {
